@@ -317,6 +317,12 @@ def check_decisions_read_computed(ctx, f: FuncInfo, source_names: typing.Set[str
             ctx.check(recv not in source_names, rule, f"{f.qualname}|{short(c, 70)}", ctx.where(f.module, c), "reads the computed value",
                       f"`{short(node.test, 90)}` decides from `{recv}`, the source element: after style computation the decision must read the computed value "
                       f"(animation, inheritance and initial values are otherwise ignored)")
+          elif isinstance(c, ast.Call) and unparse(c.func) not in ("isinstance", "type", "id", "len") and any(isinstance(a, ast.Name) and a.id in source_names for a in c.args):
+            # a predicate that is handed the source element can only look at specified values
+            n += 1
+            ctx.bad(rule, f"{f.qualname}|{short(c, 70)}", ctx.where(f.module, c),
+                    f"`{short(node.test, 90)}` hands the source element to `{short(c.func, 40)}`: after style computation the decision must be taken from the computed "
+                    f"values of the ISD element (a predicate over the source sees specified styles only and ignores animation, inheritance and initial values)")
   return n
 
 
@@ -350,3 +356,50 @@ def check_preorder(ctx, f: FuncInfo, rule="ORD-preorder"):
             f"{f.short} reads `{elem}.parent()`'s styles and writes `{elem}`'s own, but descends into the children before `{short(late[0], 50) if late else ''}`: "
             f"the children see a parent that has not been processed yet")
   return 1
+
+
+def check_postorder_emptiness(ctx, f: FuncInfo, rule="ORD-postorder"):
+  """A recursive step that removes a child because the child has nothing left (its own children are
+  counted: `not child`, `len(child)`, `child.has_children()`, a quantifier over the child's
+  children) must first have recursed into that child: only after the grandchildren were pruned is the
+  child's emptiness final.  Testing first leaves containers that become empty afterwards."""
+  ctx.unit(f.module)
+  n = 0
+  for lp in own_nodes(f.node):
+    if not (isinstance(lp, ast.For) and isinstance(lp.target, ast.Name)):
+      continue
+    c = lp.target.id
+    rec = [x for x in own_nodes(lp) if isinstance(x, ast.Call) and unparse(x.func).split(".")[-1] == f.name and any(isinstance(a, ast.Name) and a.id == c for a in x.args)]
+    if not rec:
+      continue
+
+    def counts_children(e):
+      for x in ast.walk(e):
+        if isinstance(x, ast.UnaryOp) and isinstance(x.op, ast.Not) and isinstance(x.operand, ast.Name) and x.operand.id == c:
+          return True
+        if isinstance(x, ast.Call) and isinstance(x.func, ast.Name) and x.func.id in ("len", "any", "all", "list", "bool") and x.args and any(isinstance(y, ast.Name) and y.id == c for y in ast.walk(x.args[0])
+                                                                                                                                       if not isinstance(getattr(y, "_parent", None), ast.Attribute)):
+          return True
+        if isinstance(x, ast.Call) and isinstance(x.func, ast.Attribute) and x.func.attr in ("has_children", "first_child", "last_child") and unparse(x.func.value) == c:
+          return True
+        if isinstance(x, ast.comprehension) and isinstance(x.iter, ast.Name) and x.iter.id == c:
+          return True
+      return False
+    tests = [t for t in own_nodes(lp) if isinstance(t, ast.If) and counts_children(t.test)]
+    if not tests:
+      continue
+    n += 1
+
+    def idx(node):
+      for i, st in enumerate(lp.body):
+        if any(x is node for x in ast.walk(st)):
+          return i
+      return -1
+    rec_top = [r for r in rec if isinstance(lp.body[idx(r)], ast.Expr)]
+    first_rec = min((idx(r) for r in rec_top), default=None)
+    early = [t for t in tests if first_rec is None or idx(t) < first_rec or (idx(t) == first_rec)]
+    ctx.check(not early, rule, f"{f.qualname}|a child is tested for emptiness after its own children were processed", ctx.where(f.module, lp),
+              f"`{f.name}({c})` runs unconditionally before `{short(tests[0].test, 50)}`",
+              f"{f.short} decides whether `{c}` is empty (`{short(early[0].test, 50) if early else ''}`) before - or without unconditionally - recursing into it: "
+              "a container whose content is pruned afterwards stays in the result although it is empty")
+  return n
